@@ -1,3 +1,5 @@
-Require Import LV.Model.StanzaHeapModel.
+Require Import LV.Gen.Gen_stanza LV.Model.StanzaHeapModel.
 Require Import ExtrOcamlBasic.
-Extraction "c12_model" run run_from well_owned release_all_ops init_state live_count st_heap crun clive.
+(* stanza stream (harness/ocaml/c12_driver.ml): run run_from well_owned release_all_ops init_state live_count
+   st_heap xmlns_key; connection scenarios: crun clive *)
+Extraction "c12_model" run run_from well_owned release_all_ops init_state live_count st_heap xmlns_key crun crun_from cinit clive w_user_sm w_user_conn.
